@@ -21,37 +21,60 @@ HORIZON = 20.0
 MIN_ERROR_CLASSES = 50
 
 
-def check_reporting(exc, state):
-    """The three reporting methods + the formatting the validator script applies."""
+ORDERS = [("explain", "offset", "hint"), ("explain", "hint", "offset"), ("offset", "explain", "hint"), ("offset", "hint", "explain"), ("hint", "explain", "offset"), ("hint", "offset", "explain")]
+
+
+def check_reporting(exc, state, order=0):
+    """The three reporting methods + the formatting the validator script applies.  The methods
+    are independent queries on the error: they are called in the order ORDERS[order] (the order
+    is chosen per case, so every order is exercised on every kind of error across the corpus)."""
     from vc2_conformance.string_utils import wrap_paragraphs
     from vc2_conformance.bitstream.io import to_bit_offset
     from vc2_conformance.decoder import tell
 
     problems = []
-    try:
-        text = exc.explain()
-        summary, _, details = wrap_paragraphs(text).partition("\n")
-        if not summary.strip():
-            problems.append("empty explanation summary")
-        str(exc)
-    except Exception as e:  # noqa
-        problems.append("explain() failed: %s: %s" % (type(e).__name__, e))
-    offset = None
-    try:
-        offset = exc.offending_offset()
-        if offset is None:
-            offset = to_bit_offset(*tell(state))
-        if not isinstance(offset, int) or offset < 0:
-            problems.append("offending offset %r is not a non-negative int" % (offset,))
-    except Exception as e:  # noqa
-        problems.append("offending_offset() failed: %s: %s" % (type(e).__name__, e))
-    try:
-        hint = textwrap.dedent(exc.bitstream_viewer_hint()).strip().format(cmd="vc2-bitstream-viewer", file="f.vc2", offset=offset)
-        if not hint:
-            problems.append("empty viewer hint")
-    except Exception as e:  # noqa
-        problems.append("bitstream_viewer_hint() failed: %s: %s" % (type(e).__name__, e))
-    return problems, offset
+    got = {"offset": None, "hint": None}
+
+    def do_explain():
+        try:
+            text = exc.explain()
+            summary, _, details = wrap_paragraphs(text).partition("\n")
+            if not summary.strip():
+                problems.append("empty explanation summary")
+            str(exc)
+        except Exception as e:  # noqa
+            problems.append("explain() failed: %s: %s" % (type(e).__name__, e))
+
+    def do_offset():
+        try:
+            offset = exc.offending_offset()
+            if offset is None:
+                offset = to_bit_offset(*tell(state))
+            if not isinstance(offset, int) or offset < 0:
+                problems.append("offending offset %r is not a non-negative int" % (offset,))
+            got["offset"] = offset
+        except Exception as e:  # noqa
+            problems.append("offending_offset() failed: %s: %s" % (type(e).__name__, e))
+
+    def do_hint():
+        try:
+            got["hint"] = exc.bitstream_viewer_hint()
+        except Exception as e:  # noqa
+            problems.append("bitstream_viewer_hint() failed: %s: %s" % (type(e).__name__, e))
+
+    steps = {"explain": do_explain, "offset": do_offset, "hint": do_hint}
+    for name in ORDERS[order % len(ORDERS)]:
+        steps[name]()
+    if problems:
+        problems = ["%s (methods called in the order %s)" % (problems[0], ", ".join(ORDERS[order % len(ORDERS)]))] + problems[1:]
+    if got["hint"] is not None:
+        try:
+            hint = textwrap.dedent(got["hint"]).strip().format(cmd="vc2-bitstream-viewer", file="f.vc2", offset=got["offset"])
+            if not hint:
+                problems.append("empty viewer hint")
+        except Exception as e:  # noqa
+            problems.append("bitstream_viewer_hint() failed: %s: %s" % (type(e).__name__, e))
+    return problems, got["offset"]
 
 
 def run_case(case):
@@ -71,7 +94,10 @@ def run_case(case):
         tb = traceback.extract_tb(v.exc.__traceback__)
         where = "%s:%d" % (tb[-1].filename.split("/")[-1], tb[-1].lineno) if tb else "?"
         return v.label, ["validator raised %s: %s at %s" % (type(v.exc).__name__, v.exc, where)], None
-    problems, offset = check_reporting(v.exc, v.state)
+    from mc.tally import stable_hash
+
+    order = stable_hash(case)[0] % len(ORDERS)
+    problems, offset = check_reporting(v.exc, v.state, order)
     return v.label, problems, offset
 
 
